@@ -23,7 +23,12 @@ RULE = ("percent layouts over the grid {0,5,10,12.5,33.33,50,90,95,100} + random
         "(verbatim) settings strings of a WebVTT file written back verbatim. Non-trivial: >= 2 "
         "distinct layouts in the set, or a layout at more than one level, or padding present. "
         'In a quarter of the cases the writer / reader objects have handled another document '
-        'before and another writer with the opposite fit option wrote the same set. ')
+        'before and another writer with the opposite fit option wrote the same set. '
+        "Equal layouts are one shared Layout object in half of the cases (API-built sets); the "
+        "language option is exercised (DFXP force= keyword / positional, known / unknown code; "
+        "WebVTT lang= with a second language - with a layout of its own - listed before or "
+        "after the written one); WebVTTWriter also runs with relativize=False (legal for "
+        "percentages). ")
 ASSUMPTIONS = [
     "layout values have at most two decimals (printing is lossless)",
     "WebVTT arithmetic is judged for layouts that have an origin (the quantified domain)",
@@ -134,7 +139,8 @@ def dfxp_strategy(tier):
                 "fit": draw(st.booleans()), "reuse": draw(st.integers(0, 3)) == 0,
                 # the language option: absent, the language of the set, or one it does not have
                 # (then everything is written) - keyword or positional
-                "force": draw(st.sampled_from([None, None, "en", "zz"])), "force_pos": draw(st.booleans())}
+                "force": draw(st.sampled_from([None, None, "en", "zz"])), "force_pos": draw(st.booleans()),
+                "share": draw(st.booleans())}
     return build()
 
 
@@ -193,6 +199,9 @@ def check_dfxp(case, rec):
         case = dict(case, fit=False)
         rec.label("fit-dropped:origin-outside-safe-area")
     cs = model.to_pycaption(m)
+    if case.get("share"):
+        model.share_layouts(cs)
+        rec.label("shared-layout-objects")
     writer, reader = DFXPWriter(fit_to_screen=case["fit"]), DFXPReader()
     if case.get("reuse"):
         # both objects have handled another document before (different fit option first)
@@ -296,9 +305,17 @@ def webvtt_strategy(tier):
                 nodes.append({"t": f"c{ci}n{k}", "layout": draw(pick) if positioned else None})
             cues.append({"start": 1000000 * (ci + 1), "end": 1000000 * (ci + 1) + 900000,
                          "nodes": nodes, "style": {}, "layout": lc})
+        # a second language with a language-level layout of its own, listed before or after the
+        # language that is written (then selected with lang=)
+        other = None
+        if draw(st.integers(0, 3)) == 0:
+            other = {"layout": draw(_opt(pick, 3)), "first": draw(st.booleans()), "positional": draw(st.booleans())}
         return {"set": {"langs": [{"code": "en-US", "layout": lang_layout, "cues": cues}],
                         "styles": {}, "layout": None},
-                "fit": draw(st.booleans()), "reuse": draw(st.integers(0, 3)) == 0}
+                "fit": draw(st.booleans()), "reuse": draw(st.integers(0, 3)) == 0, "other": other,
+                # all layouts here are percentages, so relativize=False is a legal option value;
+                # equal layouts may be one shared object (API-built sets)
+                "relativize": draw(st.sampled_from([True, True, False])), "share": draw(st.booleans())}
     return build()
 
 
@@ -339,8 +356,19 @@ def check_webvtt(case, rec):
         case = dict(case, fit=False)
         rec.label("fit-dropped:origin-outside-safe-area")
     lang = m["langs"][0]
-    cs = model.to_pycaption(m)
-    writer = WebVTTWriter(fit_to_screen=case["fit"])
+    full = m
+    other = case.get("other")
+    if other:
+        o = {"code": "fr-FR", "layout": other["layout"],
+             "cues": [{"start": 500000, "end": 800000, "nodes": [{"t": "autre", "layout": None}], "style": {},
+                       "layout": None}]}
+        full = dict(m, langs=[o, lang] if other["first"] else [lang, o])
+        rec.label("second-language")
+    cs = model.to_pycaption(full)
+    if case.get("share"):
+        model.share_layouts(cs)
+        rec.label("shared-layout-objects")
+    writer = WebVTTWriter(fit_to_screen=case["fit"], relativize=case.get("relativize", True))
     if case.get("reuse"):
         try:
             WebVTTWriter(fit_to_screen=not case["fit"]).write(model.to_pycaption(m))
@@ -349,7 +377,10 @@ def check_webvtt(case, rec):
             pass
         rec.label("reused-objects")
     with must("WebVTTWriter.write"):
-        out = writer.write(cs)
+        if other:
+            out = writer.write(cs, "en-US") if other["positional"] else writer.write(cs, lang="en-US")
+        else:
+            out = writer.write(cs)
     try:
         cues = P.parse_webvtt(out)
     except P.RefParseError as e:
